@@ -408,6 +408,13 @@ where
                     "Unexpected end of file.",
                 ));
             }
+            // A report cut in the middle of a path must not be taken for a complete one
+            if !path_str.ends_with('\n') {
+                return Err(Error::new(
+                    ErrorKind::UnexpectedEof,
+                    format!("Unexpected end of file. Incomplete path: {path_str}"),
+                ));
+            }
             if !path_str.starts_with("    ") || path_str.trim().is_empty() {
                 return Err(Error::new(
                     ErrorKind::InvalidData,
